@@ -17,7 +17,7 @@ import (
 
 func init() {
 	srvlab.ExtraC12 = append(srvlab.ExtraC12, func(tier string, seed int64) []core.Case {
-		return []core.Case{{ID: "client/connect-adopts-negotiation", Run: c12Client}}
+		return []core.Case{{ID: "client/connect-adopts-negotiation", Run: c12Client}, {ID: "client/advertised-iounit", Run: c12ClientIounit}}
 	})
 	srvlab.ExtraC13 = append(srvlab.ExtraC13, func(tier string, seed int64) []core.Case {
 		var cases []core.Case
@@ -184,6 +184,68 @@ func c12Client(ctx *core.Ctx) core.Result {
 		}
 	}
 	res.Sample(map[string]interface{}{"scenario": "client adopts negotiated msize/dialect", "own_msizes": owns, "peer_msize_deltas": answers, "versions": versions})
+	return res
+}
+
+// c12ClientIounit: the server's idea of an i/o unit (Ropen, Rcreate) never makes the client exceed the msize it
+// adopted: fids opened and created against a peer that advertises a large iounit are written and read with any
+// amount of data; no request frame is longer than the negotiated msize and the transfers are complete.
+func c12ClientIounit(ctx *core.Ctx) core.Result {
+	var res core.Result
+	for _, tc := range []struct{ own, peerM, iounit uint32 }{{1024, 8192, 8168}, {256, 8192, 4096}, {8192, 1024, 8168}, {1024, 8192, 1001}, {512, 8192, 0xFFFFFFFF}, {4096, 4096, 0}} {
+		for _, dotu := range []bool{true, false} {
+			res.Evals++
+			p := peer.New(tc.peerM, true)
+			p.Iounit = tc.iounit
+			sched.Install(sched.New(nil, nil))
+			go p.Serve(nil)
+			c, err := go9p.Connect(p.Cli, tc.own, dotu)
+			if err != nil {
+				res.Inconclusive = "c12 client: connect failed: " + err.Error()
+				return res
+			}
+			neg := tc.own
+			if tc.peerM < neg {
+				neg = tc.peerM
+			}
+			det := map[string]interface{}{"client_msize": tc.own, "peer_msize": tc.peerM, "advertised_iounit": tc.iounit, "dotu": dotu}
+			for _, how := range []string{"open", "create"} {
+				f := c.FidAlloc()
+				f.Fid = map[string]uint32{"open": 700, "create": 701}[how]
+				if how == "open" {
+					err = c.Open(f, go9p.ORDWR)
+				} else {
+					err = c.Create(f, "newfile", 0o644, go9p.ORDWR, "")
+				}
+				if err != nil {
+					res.Violate("C12;client;iounit;"+how+"-failed", fmt.Sprintf("%s against a peer advertising iounit %d: %v", how, tc.iounit, err), det)
+					continue
+				}
+				if f.Iounit == 0 || f.Iounit > neg-go9p.IOHDRSZ {
+					res.Violate("C12;client;iounit;"+how, fmt.Sprintf("after %s the fid's iounit is %d; the connection's msize is %d (at most %d bytes of data per message)", how, f.Iounit, neg, neg-go9p.IOHDRSZ), det)
+				}
+				data := make([]byte, 3*int(neg)+17)
+				for i := range data {
+					data[i] = byte(i*7 + 1)
+				}
+				file := go9p.FidFile(f, 0)
+				n, werr := file.Written(data, 0)
+				if werr != nil || n != len(data) {
+					res.Violate("C12;client;iounit;write;"+how, fmt.Sprintf("writing %d bytes through a fid from %s (peer's iounit %d, msize %d): wrote %d, %v", len(data), how, tc.iounit, neg, n, werr), det)
+				}
+				buf := make([]byte, 2*int(neg)+5)
+				if rn, rerr := file.Readn(buf, 3); rerr != nil || rn != len(buf) {
+					res.Violate("C12;client;iounit;read;"+how, fmt.Sprintf("reading %d bytes through a fid from %s: got %d, %v", len(buf), how, rn, rerr), det)
+				}
+			}
+			if mf := p.MaxFrame(); mf > int(neg) {
+				res.Violate("C12;client;oversize-request", fmt.Sprintf("the client sent a request of %d bytes on a connection with msize %d", mf, neg), det)
+			}
+			res.Sig(fmt.Sprintf("client-iounit|%d|%d|%d|%v", tc.own, tc.peerM, tc.iounit, dotu))
+			c.Unmount()
+			p.Srv.Close()
+		}
+	}
 	return res
 }
 
